@@ -72,13 +72,14 @@ pub fn blocks(thorough: bool) -> Vec<Block> {
         b.push(Block::new(u_corpus("U_large_rep", verif_seed() + 2, 60_000, &["a", "b"], (6, 14), (4, 12)), thr(&[0], &[(1, 1), (1, 2), (2, 1)]), "r x 3 thresholds (corpus)"));
         b.push(Block::new(u_corpus("U_large_rep3", verif_seed() + 3, 30_000, &["a", "b", "c"], (8, 16), (3, 8)), thr(&[0, W], &[(1, 1)]), "r x {{}, w} (corpus)"));
         b.push(Block::new(Universe::new("U_tok{\\d,1,\\,d}", &["\\d", "1", "\\", "d"], 4, 2, false), thr(&[D, D | W, NW, D | NS], &[(1, 1), (2, 1)]), "r x {d, d+w, W, d+S} x {(1,1),(2,1)}"));
-        b.push(Block::new(u_kind_pairs(4, 1, false), thr(&[0, X, E], &grid22), "r x {{}, x, e} x 6 thresholds"));
+        b.push(Block::new(u_kind_pairs(4, 1, false), thr(&[0, X, E], &[(1, 1), (1, 2)]), "r x {{}, x, e} x {(1,1),(1,2)}"));
         b.push(Block::new(u_long_rep(46), thr(&[0, X, I, W], &grid22), "r x {{}, x, i, w} x 6 thresholds"));
-        b.push(Block::new(u_long_runs(300), thr(&[0, D, X, W], &grid22), "r x {{}, d, x, w} x 6 thresholds"));
+        b.push(Block::new(u_long_runs(300), thr(&[0, X], &grid22), "r x {{}, x} x 6 thresholds"));
+        b.push(Block::new(u_long_runs(60), thr(&[D, W, I], &grid22), "r x {d, w, i} x 6 thresholds"));
         b.push(Block::new(u_many(120), thr(&[0, D, X], &[(1, 1), (2, 1)]), "r x {{}, d, x} x {(1,1),(2,1)}"));
         b.push(Block::new(u_kind_triples(), thr(&[0, X, E, I], &[(1, 1), (1, 2)]), "r x {{}, x, e, i} x {(1,1),(1,2)}"));
-        b.push(Block::new(u_corpus("U_longstr", verif_seed() + 7, 150_000, &["a", "b", "c"], (1, 1), (40, 90)), thr(&[0], &[(1, 1), (1, 2)]), "r x {(1,1),(1,2)} (corpus of long single strings)"));
-        b.push(Block::new(u_corpus("U_longstr2", verif_seed() + 8, 50_000, &["a", "b"], (1, 2), (50, 120)), thr(&[0], &[(1, 1)]), "r (corpus)"));
+        b.push(Block::new(u_corpus("U_longstr", verif_seed() + 7, 60_000, &["a", "b", "c"], (1, 1), (40, 90)), thr(&[0], &[(1, 1), (1, 2)]), "r x {(1,1),(1,2)} (corpus of long single strings)"));
+        b.push(Block::new(u_corpus("U_longstr2", verif_seed() + 8, 20_000, &["a", "b"], (1, 2), (50, 120)), thr(&[0], &[(1, 1)]), "r (corpus)"));
         b.push(Block::new(u_kind_pairs(2, 3, false), thr(&[0, X], &[(1, 1)]), "r x {{}, x}"));
     }
     b
